@@ -2,7 +2,7 @@
 import warnings
 from hypothesis import strategies as st
 
-from amaranth.hdl import Module, ClockDomain, Signal, Period, Value, Shape
+from amaranth.hdl import Cat, Module, ClockDomain, Signal, Period, Value, Shape
 from amaranth.sim import Simulator
 
 from vlib.runner import Part, Mismatch, HarnessError
@@ -28,7 +28,10 @@ RULE = ("perm: Hypothesis generates a design (a generated control-flow program w
         "fragments, tick().sample() returns the values from just before the edge (also for registers of another domain "
         "ticking in the same instant) and ctx.get afterwards the updated registers. lockstep: k testbenches awaiting "
         "the same tick append to a shared log; entries at each instant appear in the order the testbenches were "
-        "added. replace: a circuit and the guide's process replacing it give identical observations. Non-trivial: "
+        "added. replace: a circuit and the guide's process replacing it give identical observations. handoff: writer "
+        "testbenches set flags at generated instants, observer testbenches await changed / posedge / negedge of a flag; "
+        "every observer wakes in the instant of the write for every order of add_testbench calls, with writers that "
+        "return right after their last write or carry on. Non-trivial: "
         "some iteration had >=2 runnable processes AND two orders differed in the sequence in which they ran. Distinct "
         "by canonical hash of the case.")
 ASSUMPTIONS = [
@@ -599,6 +602,96 @@ def lockstep_body(ctx, case):
     ctx.note(case, True, "lockstep:checked", evals=case["n"] * case["ticks"] * 3)
 
 
+# ------------------------------------------------------------------------------------------ hand-off between testbenches
+@st.composite
+def handoff_cases(draw):
+    """Writer testbenches set flags at generated instants; observer testbenches wait for changed() / posedge() /
+    negedge() of a flag.  Every observer must wake in the very instant of the write - whichever testbench was added
+    first, and whether or not the writer finishes right after its last write."""
+    half = 10_000
+    nflags = draw(INT(1, 2))
+    times = sorted(draw(st.lists(INT(1, 12), min_size=2, max_size=8, unique=True)))
+    flags = [{"w": draw(INT(1, 2)), "events": []} for _ in range(nflags)]
+    for t in times:
+        f = flags[draw(INT(0, nflags - 1))]
+        f["events"].append([t * half + draw(INT(1, half - 1)), draw(INT(0, (1 << f["w"]) - 1))])
+    flags = [f for f in flags if f["events"]]
+    obs = [{"flag": draw(INT(0, len(flags) - 1)), "kind": PICK(draw, ["changed", "changed", "posedge", "negedge"])}
+           for _ in range(draw(INT(1, 3)))]
+    ids = [f"W{i}" for i in range(len(flags))] + [f"O{i}" for i in range(len(obs))]
+    return {"half": half, "flags": flags, "observers": obs, "order": list(draw(st.permutations(ids))),
+            "tail": [draw(BOOL) for _ in flags]}
+
+
+def handoff_body(ctx, case):
+    flags, obs = case["flags"], case["observers"]
+    expect = {}                     # observer index -> [(time, value)]
+    for j, ob in enumerate(obs):
+        f = flags[ob["flag"]]
+        cur, ev = 0, []
+        for t, v in f["events"]:
+            b0, b1 = cur & 1, v & 1
+            hit = {"changed": v != cur, "posedge": (b0, b1) == (0, 1), "negedge": (b0, b1) == (1, 0)}[ob["kind"]]
+            if hit:
+                ev.append((t, v))
+            cur = v
+        expect[j] = ev
+    stats = dict(observer_before_writer=False, writer_returns_after_last_write=False)
+    for pol in (None, "reverse"):
+        simorder.set_policy(pol)
+        with warnings.catch_warnings():
+            warnings.simplefilter("ignore")
+            m = Module()
+            m.domains.sync = cd = ClockDomain()
+            r = Signal(8)
+            m.d.sync += r.eq(r + 1)
+            sigs = [Signal(f["w"], name=f"flag{i}") for i, f in enumerate(flags)]
+            keep = Signal(4)
+            m.d.comb += keep.eq(Cat(*sigs))
+            sim = Simulator(m)
+            sim.add_clock(Period(fs=2 * case["half"]))
+            log = {j: [] for j in range(len(obs))}
+
+            def writer(i):
+                async def tb(c):
+                    cur = 0
+                    for t, v in flags[i]["events"]:
+                        await c.delay(Period(fs=t - cur))
+                        c.set(sigs[i], v)
+                        cur = t
+                    if case["tail"][i]:
+                        await c.delay(Period(fs=777))
+                return tb
+
+            def observer(j):
+                async def tb(c):
+                    sig = sigs[obs[j]["flag"]]
+                    for _ in expect[j]:
+                        if obs[j]["kind"] == "changed":
+                            await c.changed(sig)
+                        elif obs[j]["kind"] == "posedge":
+                            await c.posedge(sig[0])
+                        else:
+                            await c.negedge(sig[0])
+                        log[j].append((c.elapsed_time().femtoseconds, c.get(sig)))
+                return tb
+            for name in case["order"]:
+                sim.add_testbench(writer(int(name[1:])) if name[0] == "W" else observer(int(name[1:])))
+            sim.run_until(Period(fs=14 * case["half"] + 1))
+        for j in range(len(obs)):
+            if log[j] != expect[j]:
+                raise Mismatch("observer-wake-up", observer=j, kind=obs[j]["kind"], expected=[list(x) for x in expect[j]],
+                               actual=[list(x) for x in log[j]], order=case["order"], tail=case["tail"], policy=repr(pol))
+    simorder.set_policy(None)
+    for j, ob in enumerate(obs):
+        if expect[j] and case["order"].index(f"O{j}") < case["order"].index(f"W{ob['flag']}"):
+            stats["observer_before_writer"] = True
+            if not case["tail"][ob["flag"]] and expect[j][-1][0] == flags[ob["flag"]]["events"][-1][0]:
+                stats["writer_returns_after_last_write"] = True
+    keys = ["handoff:checked"] + ["handoff:" + k for k, v in stats.items() if v]
+    ctx.note(case, stats["observer_before_writer"], *keys, evals=2 * sum(len(v) for v in expect.values()))
+
+
 # ------------------------------------------------------------------------------------------ replacement
 def replace_body(ctx, case):
     logs = []
@@ -628,6 +721,7 @@ def parts(tier):
         Part("single", "hyp", strategy=single_cases(2 if q else 3, 10 if q else 16), body=single_body, n=150 if q else 1500),
         Part("lockstep", "hyp", strategy=lockstep_cases(), body=lockstep_body, n=30 if q else 200),
         Part("replace", "hyp", strategy=perm_cases(1, 10), body=replace_body, n=40 if q else 300),
+        Part("handoff", "hyp", strategy=handoff_cases(), body=handoff_body, n=60 if q else 600),
     ]
 
 
@@ -635,4 +729,4 @@ REQUIRED = ["perm:multi-runnable", "perm:orders-differed", "perm:changed-process
             "perm:several-testbenches", "perm:equal-periods", "single:coincident", "single:sampled",
             "single:cross_domain_sample", "single:get_after_set", "single:default-phase", "single:explicit-zero-phase",
             "single:negedge-domain", "single:delay", "single:posedge-negedge", "single:watch", "lockstep:checked",
-            "replace:inputs-driven-and-observed"]
+            "replace:inputs-driven-and-observed", "handoff:observer_before_writer", "handoff:writer_returns_after_last_write"]
